@@ -89,7 +89,7 @@ def diff(before, after, allow_window=False):
     return out
 
 
-MUTATIONS = ("add_new_label", "add_annotator", "remove_unit", "reset_bounds",
+MUTATIONS = ("add_new_label", "add_annotator", "remove_unit", "reset_bounds", "assign_unit_fields",
              "merge_into", "cst_splits", "cst_shift", "cst_false_neg", "cst_category")
 
 
@@ -114,6 +114,17 @@ def mutate(c, how, spec=None):
             return
         {"cst_splits": tool.splits_shuffle, "cst_shift": tool.shift_shuffle, "cst_false_neg": tool.false_neg_shuffle,
          "cst_category": tool.category_shuffle}[how](c)
+        return
+    if how == "assign_unit_fields":
+        # the caller edits the units they got back (units are documented as immutable: a refusal is fine - but if the
+        # assignment is accepted it must not reach any other continuum)
+        for a in list(c.annotators):
+            for u in list(c.iter_annotator(a)):
+                for field, val in (("annotation", "EDITED"), ("segment", Segment(500, 501))):
+                    try:
+                        setattr(u, field, val)
+                    except Exception:  # noqa
+                        pass
         return
     if how == "add_new_label":
         a = c.annotators[0] if len(c.annotators) else "a"
